@@ -6,7 +6,11 @@
 (*  (3) non-vacuity: with a flag of TrafficFilterI set the ASSUME must fail.           *)
 EXTENDS TrafficFilterI, TLC, Json, SequencesExt
 
-D(h, kind, ip, v6, rsv) == [h |-> h, kind |-> kind, ip |-> ip, v6 |-> v6, rsv |-> rsv]
+D(h, kind, ip, v6, rsv) == [h |-> h, hlow |-> h, hcanon |-> h, kind |-> kind, ip |-> ip, v6 |-> v6, rsv |-> rsv]
+\* a destination typed in another case than its canonical (lower-case) form
+DC(h, canon, kind, ip, v6, rsv) == [h |-> h, hlow |-> canon, hcanon |-> canon, kind |-> kind, ip |-> ip, v6 |-> v6, rsv |-> rsv]
+\* a list item as typed: raw, raw in lower case, the destination it denotes ("" = none), valid as typed / without blanks
+E(raw, low, canon, valid, tvalid) == [raw |-> raw, low |-> low, canon |-> canon, valid |-> valid, tvalid |-> tvalid]
 
 \* destinations asked about
 Hosts == <<
@@ -25,7 +29,8 @@ Hosts == <<
     D("a..b",          "junk", <<>>,                 "", "unicode"),
     D("not a host!",   "junk", <<>>,                 "", "fail"),
     D("256.1.1.1",     "junk", <<>>,                 "", "fail"),
-    D("None",          "name", <<>>,                 "", "fail"),
+    DC("None", "none", "name", <<>>,                 "", "fail"),
+    DC("API.PUB.COM", "api.pub.com", "name", <<93, 184, 216, 34>>, "", "ok"),
     D("8.8.8.8",       "ip4",  <<8, 8, 8, 8>>,       "", "literal"),
     D("10.0.0.7",      "ip4",  <<10, 0, 0, 7>>,      "", "literal"),
     D("11.0.0.1",      "ip4",  <<11, 0, 0, 1>>,      "", "literal"),
@@ -38,19 +43,35 @@ Hosts == <<
     D("2606:4700::1111","ip6", <<>>,                 "global",   "literal")
 >>
 
-\* entries the lists are built from (index into Hosts) + which of them pass the filter's entry validation
-ListPool == <<1, 2, 11, 17, 18, 25, 14>>       \* api.pub.com db.corp localhost 8.8.8.8 10.0.0.7 ::1 "not a host!"
-Valid == {Hosts[i].h : i \in {1, 2, 3, 4, 5, 6, 7, 8, 9, 10, 11, 12, 16, 17, 18, 19, 20, 21, 22, 23, 24, 25, 26}}
+\* items the lists are built from: plain items, an invalid one, and the ways a list gets typed - blanks around an item
+\* ("a, b"), an empty item (trailing comma), a blank item, another letter case
+Items == <<
+    E("api.pub.com",  "api.pub.com",  "api.pub.com", TRUE,  TRUE),
+    E("db.corp",      "db.corp",      "db.corp",     TRUE,  TRUE),
+    E("localhost",    "localhost",    "localhost",   TRUE,  TRUE),
+    E("8.8.8.8",      "8.8.8.8",      "8.8.8.8",     TRUE,  TRUE),
+    E("10.0.0.7",     "10.0.0.7",     "10.0.0.7",    TRUE,  TRUE),
+    E("::1",          "::1",          "::1",         TRUE,  TRUE),
+    E("not a host!",  "not a host!",  "not a host!", FALSE, FALSE),
+    E(" 8.8.8.8",     " 8.8.8.8",     "8.8.8.8",     FALSE, TRUE),
+    E("api.pub.com ", "api.pub.com ", "api.pub.com", FALSE, TRUE),
+    E("API.Pub.com",  "api.pub.com",  "api.pub.com", TRUE,  TRUE),
+    E("",             "",             "",            FALSE, FALSE),
+    E(" ",            " ",            "",            FALSE, FALSE)
+>>
+Item(i) == [raw |-> Items[i].raw, low |-> Items[i].low, canon |-> Items[i].canon]
+Valid == {Items[i].raw : i \in {k \in DOMAIN Items : Items[k].valid}}
+TValid == {Items[i].raw : i \in {k \in DOMAIN Items : Items[k].tvalid}}
 
 Headers == <<"absent", "empty", "true", "false", "yes">>
 
-\* lists of at most two entries (in pool order)
-Lists == LET n == Len(ListPool) IN
-    {<<>>} \cup {<<Hosts[ListPool[i]].h>> : i \in 1..n}
-           \cup {<<Hosts[ListPool[p[1]]].h, Hosts[ListPool[p[2]]].h>> : p \in {q \in (1..n) \X (1..n) : q[1] < q[2]}}
+\* lists of at most two items (in pool order; an empty item after another one = trailing comma)
+Lists == LET n == Len(Items) IN
+    {<<>>} \cup {<<Item(i)>> : i \in 1..n}
+           \cup {<<Item(p[1]), Item(p[2])>> : p \in {q \in (1..n) \X (1..n) : q[1] < q[2]}}
 
 Case(d, a, b, hd, res) ==
-    [allow |-> a, block |-> b, host |-> d.h, kind |-> d.kind, ip |-> d.ip, v6 |-> d.v6, rsv |-> d.rsv,
+    [allow |-> a, block |-> b, host |-> d.h, hlow |-> d.hlow, hcanon |-> d.hcanon, kind |-> d.kind, ip |-> d.ip, v6 |-> d.v6, rsv |-> d.rsv,
      header |-> hd, res |-> res]
 
 Input(d, a, b, hd) == Case(d, a, b, hd, "")
@@ -58,7 +79,7 @@ Input(d, a, b, hd) == Case(d, a, b, hd, "")
 \* (1) the transcription of the algorithm satisfies the property on every case
 Refines ==
     \A a \in Lists, b \in Lists, i \in DOMAIN Hosts, k \in DOMAIN Headers :
-        LET c == Input(Hosts[i], a, b, Headers[k]) IN Permitted([c EXCEPT !.res = Result(c, Valid)])
+        LET c == Input(Hosts[i], a, b, Headers[k]) IN Permitted([c EXCEPT !.res = Result(c, Valid, TValid)])
 
 NCases == Cardinality(Lists) * Cardinality(Lists) * Len(Hosts) * Len(Headers)
 
